@@ -683,9 +683,8 @@ fn whitespace_filter<'a, I: Iterator<Item = Result<(Token<'a>, Span), Error>>>(
             rv
         }
         Some(Ok((Token::Comment(_, end_ws), span))) => {
-            if end_ws {
-                remove_leading_ws = true;
-            }
+            // A `-` only trims the text directly next to it: a comment in between ends its reach
+            remove_leading_ws = end_ws;
             // Empty content nodes will get removed by the parser
             Some(Ok((Token::Content(""), span)))
         }
